@@ -48,3 +48,16 @@ def ensure():
         import shutil
         shutil.rmtree(tmp, ignore_errors=True)     # somebody else won the race
     return DIR
+
+
+def ensure_front():
+    """Self-signed key/cert for the proxy's own TLS front (--key-file/--cert-file)."""
+    d = ensure()
+    k, c = os.path.join(d, 'front-key.pem'), os.path.join(d, 'front-cert.pem')
+    if not (os.path.exists(k) and os.path.exists(c)):
+        tk, tc = k + '.%d' % os.getpid(), c + '.%d' % os.getpid()
+        _run('genrsa', '-out', tk, '2048')
+        _run('req', '-new', '-x509', '-sha256', '-days', '365', '-key', tk, '-subj', '/CN=proxy.front.test', '-out', tc)
+        os.rename(tk, k)
+        os.rename(tc, c)
+    return k, c
